@@ -35,6 +35,8 @@ struct FnInfo {
     ret: Ty,
     /// first parameter is recursion fuel
     recursive: bool,
+    /// no prints, no writes, reads immutable globals only: may be called from a global initialiser
+    effect_free: bool,
 }
 
 struct FnCtx {
@@ -58,6 +60,11 @@ pub struct Gen<'r> {
     n_unreach: u32,
     /// while generating a global initialiser: no statements with effects
     no_effects: bool,
+    /// when set, the values of if/case arms mention this (fuel) parameter, so they differ per activation
+    arm_bias: Option<BId>,
+    /// global functions printed as `pu`: never used as first-class values (a `pu` and an `fn` function
+    /// do not unify in both directions, so mixing them in one if/case would be a type error)
+    pu_globals: Vec<BId>,
 }
 
 const INT_POOL: &[i64] = &[0, 1, 2, 3, 4, 5, 7, 10, 12, 100, 255, 1000, 65536, 2147483647, 4294967296, 9007199254740993, 9223372036854775807];
@@ -84,7 +91,7 @@ const STR_POOL: &[&str] = &["", "a", "b", "ab", "abc", "hello", "Z", "0", "x y",
 
 impl<'r> Gen<'r> {
     pub fn new(rng: &'r mut Rng, cfg: Cfg) -> Self {
-        Gen { rng, p: Program::default(), cfg, scopes: Vec::new(), globals: Vec::new(), fns: Vec::new(), ctx: Vec::new(), n_asserts: 0, n_unreach: 0, no_effects: false }
+        Gen { rng, p: Program::default(), cfg, scopes: Vec::new(), globals: Vec::new(), fns: Vec::new(), ctx: Vec::new(), n_asserts: 0, n_unreach: 0, no_effects: false, arm_bias: None, pu_globals: Vec::new() }
     }
 
     fn feat(&mut self, f: &'static str) {
@@ -133,7 +140,7 @@ impl<'r> Gen<'r> {
 
     fn vars_of(&self, ty: &Ty) -> Vec<BId> {
         let pure = self.ctx.last().map(|c| c.pure).unwrap_or(false);
-        self.visible().into_iter().filter(|b| &self.p.binders[*b].ty == ty && !(pure && self.p.binders[*b].mutable)).collect()
+        self.visible().into_iter().filter(|b| &self.p.binders[*b].ty == ty && !(pure && self.p.binders[*b].mutable) && !self.pu_globals.contains(b)).collect()
     }
 
     fn mutable_vars(&self) -> Vec<BId> {
@@ -266,7 +273,7 @@ impl<'r> Gen<'r> {
         let d = depth - 1;
         // generic alternatives available for every type
         let vars = self.vars_of(ty);
-        let calls: Vec<FnInfo> = self.fns.iter().filter(|f| &f.ret == ty).cloned().collect();
+        let calls: Vec<FnInfo> = self.fns.iter().filter(|f| &f.ret == ty && (!self.no_effects || f.effect_free)).cloned().collect();
         let generic = self.rng.weighted(&[
             6,                                        // type-specific
             if vars.is_empty() { 0 } else { 4 },      // variable
@@ -275,8 +282,13 @@ impl<'r> Gen<'r> {
             if !self.p.enums.is_empty() && *ty != Ty::Void { 1 } else { 0 }, // case-expression
             1,                                        // field / tuple index / list get
             1,                                        // literal
+            if Self::pure_ty(ty) { 1 } else { 0 },    // map / fold with a `pu` callback
         ]);
         match generic {
+            7 => match self.hof_expr(ty, d) {
+                Some(e) => e,
+                None => self.specific(ty, d),
+            },
             1 => Expr::Var(*self.rng.pick(&vars)),
             2 => {
                 let f = self.rng.pick(&calls).clone();
@@ -287,6 +299,127 @@ impl<'r> Gen<'r> {
             5 => self.projection(ty, d),
             6 => self.literal(ty),
             _ => self.specific(ty, d),
+        }
+    }
+
+    // ------------------------------------------------------------ higher-order library calls
+
+    /// types a `pu` callback may take and produce
+    fn pure_ty(t: &Ty) -> bool {
+        match t {
+            Ty::Int | Ty::Float | Ty::Str | Ty::Bool => true,
+            Ty::Tuple(ts) => !ts.is_empty() && ts.iter().all(Self::pure_ty),
+            Ty::List(t) => Self::pure_ty(t),
+            _ => false,
+        }
+    }
+
+    /// `map(l, pu x -> ..)` for list types, `fold(l, init, pu x, acc -> ..)` otherwise; the callbacks may
+    /// themselves call map / fold (the library helpers are re-entered while an outer call is running)
+    fn hof_expr(&mut self, ty: &Ty, depth: u32) -> Option<Expr> {
+        let pure = self.ctx.last().map(|c| c.pure).unwrap_or(false);
+        let lists: Vec<BId> = self
+            .visible()
+            .into_iter()
+            .filter(|b| {
+                let bd = &self.p.binders[*b];
+                matches!(&bd.ty, Ty::List(t) if Self::pure_ty(t)) && !(pure && bd.mutable)
+            })
+            .collect();
+        if lists.is_empty() {
+            return None;
+        }
+        let l = *self.rng.pick(&lists);
+        let elem = match &self.p.binders[l].ty {
+            Ty::List(t) => (**t).clone(),
+            _ => return None,
+        };
+        let site = self.p.site();
+        match ty {
+            Ty::List(u) => {
+                self.feat("map_with_pure_callback");
+                let f = self.pure_lambda(&[elem], u, depth);
+                Some(Expr::StdCall { f: Std::ListMap, args: vec![Expr::Var(l), f], site })
+            }
+            _ => {
+                self.feat("fold_with_pure_callback");
+                let init = if pure { self.pure_expr(ty, 0) } else { self.leaf(ty) };
+                let f = self.pure_lambda(&[elem, ty.clone()], ty, depth);
+                Some(Expr::StdCall { f: Std::ListFold, args: vec![Expr::Var(l), init, f], site })
+            }
+        }
+    }
+
+    fn pure_lambda(&mut self, ps: &[Ty], r: &Ty, depth: u32) -> Expr {
+        let fid = self.p.fn_id();
+        self.scopes.push(Vec::new());
+        let params: Vec<BId> = ps.iter().map(|t| self.declare("h", t.clone(), false, BKind::Param)).collect();
+        self.ctx.push(FnCtx { ret: r.clone(), in_loop: false, self_blob: None, rec: None, pure: true });
+        let mut body = Block::default();
+        body.value = Some(Box::new(self.pure_expr(r, depth.min(2))));
+        self.ctx.pop();
+        self.scopes.pop();
+        Expr::Lambda(Box::new(FnDef { id: fid, params, ret: r.clone(), body, pure: true }))
+    }
+
+    /// expression valid inside a `pu` function: immutable variables, literals, operators, if-expressions,
+    /// nested map / fold
+    fn pure_expr(&mut self, ty: &Ty, depth: u32) -> Expr {
+        let vars: Vec<BId> = self.vars_of(ty).into_iter().filter(|b| !self.p.binders[*b].mutable).collect();
+        if depth == 0 {
+            return if !vars.is_empty() && self.rng.chance(2, 3) { Expr::Var(*self.rng.pick(&vars)) } else { self.literal(ty) };
+        }
+        let d = depth - 1;
+        if !vars.is_empty() && self.rng.chance(1, 4) {
+            return Expr::Var(*self.rng.pick(&vars));
+        }
+        if self.rng.chance(if matches!(ty, Ty::List(_)) { 2 } else { 1 }, 5) {
+            // nested higher-order call (ctx is pure here: only immutable lists are used)
+            if let Some(e) = self.hof_expr(ty, d) {
+                self.feat("nested_higher_order_call");
+                return e;
+            }
+        }
+        if self.rng.chance(1, 6) {
+            let c = self.pure_expr(&Ty::Bool, d);
+            let a = self.pure_expr(ty, d);
+            let b = self.pure_expr(ty, d);
+            return Expr::If { branches: vec![(c, Block { stmts: vec![], value: Some(Box::new(a)) })], els: Some(Block { stmts: vec![], value: Some(Box::new(b)) }) };
+        }
+        match ty {
+            Ty::Int => {
+                if self.rng.chance(1, 5) {
+                    // products only with a small constant (folds would overflow otherwise)
+                    let k = self.rng.range(2, 4);
+                    Expr::Bin(BinOp::Mul, Box::new(self.pure_expr(ty, d)), Box::new(Expr::Int(k)))
+                } else {
+                    let op = *self.rng.pick(&[BinOp::Add, BinOp::Sub]);
+                    Expr::Bin(op, Box::new(self.pure_expr(ty, d)), Box::new(self.pure_expr(ty, d)))
+                }
+            }
+            Ty::Float => {
+                let op = *self.rng.pick(&[BinOp::Add, BinOp::Sub]);
+                Expr::Bin(op, Box::new(self.pure_expr(ty, d)), Box::new(self.pure_expr(ty, d)))
+            }
+            Ty::Str => Expr::Bin(BinOp::Add, Box::new(self.pure_expr(ty, d)), Box::new(self.pure_expr(ty, d))),
+            Ty::Bool => match self.rng.below(3) {
+                0 => {
+                    let t = if self.rng.chance(1, 2) { Ty::Int } else { Ty::Str };
+                    let op = *self.rng.pick(&[BinOp::Lt, BinOp::Le, BinOp::Eq, BinOp::Ne, BinOp::Gt]);
+                    Expr::Bin(op, Box::new(self.pure_expr(&t, d)), Box::new(self.pure_expr(&t, d)))
+                }
+                1 => {
+                    let op = *self.rng.pick(&[BinOp::And, BinOp::Or]);
+                    Expr::Bin(op, Box::new(self.pure_expr(ty, d)), Box::new(self.pure_expr(ty, d)))
+                }
+                _ => Expr::Un(UnOp::Not, Box::new(self.pure_expr(ty, d))),
+            },
+            Ty::Tuple(ts) => Expr::Tuple(ts.iter().map(|t| self.pure_expr(t, d)).collect()),
+            Ty::List(t) => {
+                let n = 1 + self.rng.below(2);
+                Expr::List((0..n).map(|_| self.pure_expr(t, d)).collect(), (**t).clone())
+            }
+            _ => self.literal(ty),
         }
     }
 
@@ -324,13 +457,17 @@ impl<'r> Gen<'r> {
     fn if_expr(&mut self, ty: &Ty, depth: u32) -> Expr {
         self.feat("if_expression");
         let n = 1 + self.rng.below(2);
+        // one arm (any of them, also the else) is certain to yield the value; the others may leave the
+        // function instead, now and then all of them do
+        let anchor = self.rng.below(n + 1);
+        let all_others_leave = self.rng.chance(1, if self.arm_bias.is_some() { 3 } else { 25 });
         let mut branches = Vec::new();
-        for _ in 0..n {
+        for i in 0..n {
             let c = self.expr(&Ty::Bool, depth);
-            let b = self.value_block2(ty, depth, true);
+            let b = self.value_block3(ty, depth, if i == anchor { 0 } else if all_others_leave { 2 } else { 1 });
             branches.push((c, b));
         }
-        let els = Some(self.value_block(ty, depth));
+        let els = Some(self.value_block3(ty, depth, if n == anchor { 0 } else if all_others_leave { 2 } else { 1 }));
         Expr::If { branches, els }
     }
 
@@ -340,7 +477,12 @@ impl<'r> Gen<'r> {
 
     /// `may_diverge`: the arm may leave the function instead of yielding a value (some other arm has a value)
     fn value_block2(&mut self, ty: &Ty, depth: u32, may_diverge: bool) -> Block {
-        if may_diverge && !self.no_effects && self.ctx.len() >= 1 && self.rng.chance(1, 40) {
+        self.value_block3(ty, depth, if may_diverge { 1 } else { 0 })
+    }
+
+    /// mode 0: yields a value; 1: leaves the function instead in 1 case of 40; 2: leaves the function (if it can)
+    fn value_block3(&mut self, ty: &Ty, depth: u32, mode: u8) -> Block {
+        if mode > 0 && !self.no_effects && self.ctx.len() >= 1 && !self.ctx.last().map(|c| c.pure).unwrap_or(false) && (mode == 2 || self.rng.chance(1, 40)) {
             let ret_ty = self.ctx.last().map(|c| c.ret.clone()).unwrap_or(Ty::Void);
             let in_fn = !self.scopes.is_empty();
             if in_fn {
@@ -369,7 +511,18 @@ impl<'r> Gen<'r> {
                 b.stmts.push(s);
             }
         }
-        b.value = Some(Box::new(self.expr(ty, depth)));
+        let mut v = self.expr(ty, depth);
+        if let Some(fuel) = self.arm_bias {
+            match ty {
+                Ty::Int => v = Expr::Bin(BinOp::Add, Box::new(Expr::Bin(BinOp::Mul, Box::new(Expr::Var(fuel)), Box::new(Expr::Int(self.rng.range(2, 9))))), Box::new(v)),
+                Ty::Str => {
+                    let site = self.p.site();
+                    v = Expr::Bin(BinOp::Add, Box::new(Expr::StdCall { f: Std::AsStr, args: vec![Expr::Var(fuel)], site }), Box::new(v))
+                }
+                _ => {}
+            }
+        }
+        b.value = Some(Box::new(v));
         self.scopes.pop();
         b
     }
@@ -403,7 +556,8 @@ impl<'r> Gen<'r> {
         self.feat("case_expression");
         let (scrut, en) = self.enum_scrutinee(depth);
         let variants = self.p.enum_variants(&en);
-        let use_else = self.rng.chance(1, 3) && variants.len() > 1;
+        let biased = self.arm_bias.is_some();
+        let use_else = (self.rng.chance(1, 3) || (biased && self.rng.chance(1, 2))) && variants.len() > 1;
         let mut arms = Vec::new();
         let listed: Vec<(String, Option<Ty>)> = if use_else {
             let k = 1 + self.rng.below(variants.len() - 1);
@@ -411,6 +565,10 @@ impl<'r> Gen<'r> {
         } else {
             variants.clone()
         };
+        let n_arms = listed.len() + if use_else { 1 } else { 0 };
+        let anchor = if biased && use_else && self.rng.chance(1, 2) { n_arms - 1 } else { self.rng.below(n_arms) };
+        let all_others_leave = self.rng.chance(1, if biased { 3 } else { 25 });
+        let mode_of = |i: usize| if i == anchor { 0u8 } else if all_others_leave { 2 } else { 1 };
         for (vn, vt) in listed {
             self.scopes.push(Vec::new());
             let bind = match vt {
@@ -420,12 +578,12 @@ impl<'r> Gen<'r> {
                 }
                 _ => None,
             };
-            let first = arms.is_empty();
-            let body = if *ty == Ty::Void { self.stmt_block(depth, 2) } else { self.value_block2(ty, depth, !first) };
+            let i = arms.len();
+            let body = if *ty == Ty::Void { self.stmt_block(depth, 2) } else { self.value_block3(ty, depth, mode_of(i)) };
             self.scopes.pop();
             arms.push(CaseArm { variant: vn, bind, body });
         }
-        let els = if use_else { Some(if *ty == Ty::Void { self.stmt_block(depth, 2) } else { self.value_block(ty, depth) }) } else { None };
+        let els = if use_else { Some(if *ty == Ty::Void { self.stmt_block(depth, 2) } else { self.value_block3(ty, depth, mode_of(n_arms - 1)) }) } else { None };
         Expr::Case { scrut: Box::new(scrut), en, arms, els }
     }
 
@@ -792,7 +950,7 @@ impl<'r> Gen<'r> {
         if pure || self.no_effects {
             return Vec::new();
         }
-        let mut cands: Vec<BId> = self.fns.iter().filter(|f| !f.recursive).map(|f| f.b).collect();
+        let mut cands: Vec<BId> = self.fns.iter().filter(|f| !f.recursive && !self.pu_globals.contains(&f.b)).map(|f| f.b).collect();
         for b in self.visible() {
             let bd = &self.p.binders[b];
             if bd.kind != BKind::Global && !bd.mutable && matches!(bd.ty, Ty::Fn(..)) && !cands.contains(&b) {
@@ -836,6 +994,28 @@ impl<'r> Gen<'r> {
             }
         }
         out
+    }
+
+    /// `for_each(<fresh list>, fn x do .. end)`: the list is a literal or the result of a `map`, so the
+    /// callback cannot modify the list being traversed (undefined for Lua's `pairs`)
+    fn for_each_stmt(&mut self, depth: u32) -> Vec<Stmt> {
+        let pure = self.ctx.last().map(|c| c.pure).unwrap_or(false);
+        if pure || self.no_effects {
+            return Vec::new();
+        }
+        self.feat("for_each");
+        let t = self.simple_ty();
+        let lt = Ty::List(Box::new(t.clone()));
+        let list = match self.hof_expr(&lt, depth.min(1)) {
+            Some(e) if self.rng.chance(1, 2) => e,
+            _ => {
+                let n = 1 + self.rng.below(3);
+                Expr::List((0..n).map(|_| self.leaf(&t)).collect(), t.clone())
+            }
+        };
+        let f = self.lambda_of(&[t], &Ty::Void, depth.min(1));
+        let site = self.p.site();
+        vec![Stmt::Expr(Expr::StdCall { f: Std::ForEach, args: vec![list, f], site })]
     }
 
     fn loop_stmt(&mut self, depth: u32) -> Vec<Stmt> {
@@ -972,7 +1152,7 @@ impl<'r> Gen<'r> {
                 vec![Stmt::Block(self.stmt_block(d.saturating_sub(1), 3))]
             }
             8 => {
-                let v = self.fn_alias(d);
+                let v = if self.rng.chance(1, 3) { self.for_each_stmt(d) } else { self.fn_alias(d) };
                 if v.is_empty() {
                     vec![self.def_stmt(d)]
                 } else {
@@ -1049,6 +1229,61 @@ impl<'r> Gen<'r> {
         }
     }
 
+    /// a global function without effects (parameters and immutable globals only; printed as `fn` or `pu`)
+    fn gen_pure_helper(&mut self) {
+        let np = 1 + self.rng.below(2);
+        let ptys: Vec<Ty> = (0..np).map(|_| self.simple_ty()).collect();
+        let ret = {
+            let t = self.value_ty(1);
+            if Self::pure_ty(&t) {
+                t
+            } else {
+                Ty::Int
+            }
+        };
+        let fty = Ty::Fn(ptys.clone(), Box::new(ret.clone()));
+        let fb = self.p.new_binder("pf", fty, false, BKind::Global);
+        let fid = self.p.fn_id();
+        self.scopes.push(Vec::new());
+        let params: Vec<BId> = ptys.iter().map(|t| self.declare("a", t.clone(), false, BKind::Param)).collect();
+        self.ctx.push(FnCtx { ret: ret.clone(), in_loop: false, self_blob: None, rec: None, pure: true });
+        let mut body = Block::default();
+        body.value = Some(Box::new(self.pure_expr(&ret, 2)));
+        self.ctx.pop();
+        self.scopes.pop();
+        self.globals.push(fb);
+        self.feat("effect_free_global_function");
+        let as_pu = self.rng.chance(1, 2);
+        if as_pu {
+            self.pu_globals.push(fb);
+        }
+        self.fns.push(FnInfo { b: fb, params: ptys, ret: ret.clone(), recursive: false, effect_free: true });
+        self.p.items.push(Item::Global { b: fb, init: Expr::Lambda(Box::new(FnDef { id: fid, params, ret, body, pure: as_pu })) });
+    }
+
+    /// globals whose initialisers call effect-free functions (which in turn read earlier globals)
+    fn gen_late_globals(&mut self) {
+        let helpers: Vec<FnInfo> = self.fns.iter().filter(|f| f.effect_free).cloned().collect();
+        if helpers.is_empty() {
+            return;
+        }
+        let n = 1 + self.rng.below(2);
+        for _ in 0..n {
+            let f = self.rng.pick(&helpers).clone();
+            let mutable = self.rng.chance(1, 3);
+            self.scopes.push(Vec::new());
+            self.ctx.push(FnCtx { ret: Ty::Void, in_loop: false, self_blob: None, rec: None, pure: false });
+            self.no_effects = true;
+            let init = self.call_fn(&f, 1);
+            self.no_effects = false;
+            self.ctx.pop();
+            self.scopes.pop();
+            let b = self.declare(if mutable { "gm" } else { "gk" }, f.ret.clone(), mutable, BKind::Global);
+            self.feat("global_initialised_through_function");
+            self.p.items.push(Item::Global { b, init });
+        }
+    }
+
     fn gen_function(&mut self, depth: u32) {
         let recursive = self.rng.chance(match self.cfg.profile {
             Profile::Reentrant => 3,
@@ -1076,7 +1311,7 @@ impl<'r> Gen<'r> {
         let rec = if recursive { Some((fb, params[0])) } else { None };
         if recursive {
             self.globals.push(fb);
-            self.fns.push(FnInfo { b: fb, params: ptys.clone(), ret: ret.clone(), recursive });
+            self.fns.push(FnInfo { b: fb, params: ptys.clone(), ret: ret.clone(), recursive, effect_free: false });
         }
         self.ctx.push(FnCtx { ret: ret.clone(), in_loop: false, self_blob: None, rec, pure: false });
         let mut body = Block::default();
@@ -1107,7 +1342,17 @@ impl<'r> Gen<'r> {
                 match &ret {
                     Ty::Int | Ty::Float | Ty::Str => {
                         self.feat("value_live_across_recursive_call");
-                        let other = self.expr(&ret, depth);
+                        // often the result of an if / case expression whose arm values depend on the
+                        // fuel: a result variable shared between activations would be overwritten
+                        let other = if ret != Ty::Float && self.rng.chance(2, 3) {
+                            self.feat("arm_value_live_across_recursive_call");
+                            self.arm_bias = Some(params[0]);
+                            let e = if !self.p.enums.is_empty() && self.rng.chance(1, 2) { self.case_expr(&ret, depth.min(1)) } else { self.if_expr(&ret, depth.min(1)) };
+                            self.arm_bias = None;
+                            e
+                        } else {
+                            self.expr(&ret, depth)
+                        };
                         if self.rng.chance(1, 2) {
                             Expr::Bin(BinOp::Add, Box::new(other), Box::new(call))
                         } else {
@@ -1125,7 +1370,7 @@ impl<'r> Gen<'r> {
         self.scopes.pop();
         if !recursive {
             self.globals.push(fb);
-            self.fns.push(FnInfo { b: fb, params: ptys, ret: ret.clone(), recursive });
+            self.fns.push(FnInfo { b: fb, params: ptys, ret: ret.clone(), recursive, effect_free: false });
         }
         self.p.items.push(Item::Global { b: fb, init: Expr::Lambda(Box::new(FnDef { id: fid, params, ret, body, pure: false })) });
     }
@@ -1158,6 +1403,10 @@ impl<'r> Gen<'r> {
         let depth = self.cfg.expr_depth;
         self.gen_types();
         self.gen_globals();
+        for _ in 0..self.rng.below(3) {
+            self.gen_pure_helper();
+        }
+        self.gen_late_globals();
         let nf = match self.cfg.profile {
             Profile::Reentrant => 2 + self.rng.below(3),
             _ => self.rng.below(4),
